@@ -32,6 +32,7 @@ DECIDED = [
     'the value itself otherwise; the density routine receives the stored fraction',
     'R4 in a Vacuum the density ratio is the literal 0 after construction, stays 0 through every operation that '
     'recomputes it, and both branches of the altitude query return it times a factor',
+    'R5 no memoised (lru_cache / cache / cached_property) method of Atmo or a subclass reads a field that is written after construction (the humidity setter rewrites the density ratio)',
 ]
 NOT_DECIDED = ['the 1e-4 agreement of computed numbers with ISA tables at arbitrary altitude and the monotonicity in '
                'pressure, temperature and humidity (numerical behaviour of the moist-air expression); conformance of '
